@@ -269,7 +269,7 @@ def main(prop_id, tier, seed, replay=None):
         'wall_s': round(time.time() - t0, 2),
         'violations': len(new_viol),
     }
-    if not replay:
+    if not replay and os.path.realpath(REPO) == '/repo':
         with open(os.path.join(VERIF, 'evidence', '%s.json' % prop_id), 'w') as f:
             json.dump(ev, f, indent=1, default=repr)
 
